@@ -26,6 +26,12 @@ VARIANTS = [
     B("f17-np-trapz-duration-stats", "            self.a_rms01 = np.sqrt(1 / self.t_b01 * trapezoid(", "            self.a_rms01 = np.sqrt(1 / self.t_b01 * np.trapz(", "R-LIBNS",
       prop="C10", file="eqsig/single.py"),
     B("f17-np-trapz-fourier-moment", "    return 2 * trapezoid(", "    return 2 * np.trapz(", "R-LIBNS", prop="C06", file="eqsig/fns/frequency.py"),
+    B("dep-stats-nonstrict", "ind01 = np.where(abs_motion / 9.8 > 0.01)", "ind01 = np.where(abs_motion / 9.8 >= 0.01)", "R-STRICT", prop="C10", file="eqsig/single.py"),
+    B("dep-stats-below", "ind05 = np.where(abs_motion / 9.8 > 0.05)", "ind05 = np.where(abs_motion / 9.8 < 0.05)", "R-STRICT", prop="C10", file="eqsig/single.py"),
+    B("dep-stats-threshold", "ind10 = np.where(abs_motion / 9.8 > 0.1)", "ind10 = np.where(abs_motion / 9.8 > 0.2)", "R-REL", prop="C10", file="eqsig/single.py"),
+    B("dep-stats-sum-of-ends", "self.t_b05 = time05[-1] - time05[0]", "self.t_b05 = time05[-1] + time05[0]", "R-ENDS", prop="C10", file="eqsig/single.py"),
+    B("dep-stats-no-abs", "        abs_motion = abs(self.values)\n\n        time = np.arange(self.npts) * self.dt", "        abs_motion = self.values\n\n        time = np.arange(self.npts) * self.dt", "R-REL", prop="C10", file="eqsig/single.py"),
+    B("dep-stats-time-over-dt", "        time = np.arange(self.npts) * self.dt\n        # Bracketed duration", "        time = np.arange(self.npts) / self.dt\n        # Bracketed duration", "R-REL", prop="C10", file="eqsig/single.py"),
     B("turn-pair-shape", "diff[1:] * diff[:-1] < 0", "diff[1:] * diff[:-2] < 0", "R-IDX"),
     B("turn-pair-not-adjacent", "diff[1:] * diff[:-1] < 0", "diff[2:] * diff[:-2] < 0", "R-IDX"),
     B("turn-pair-empty", "diff[1:] * diff[:-1] < 0", "diff[1:] * diff[:-0] < 0", "R-IDX"),
